@@ -429,6 +429,13 @@ class Exec:
     def decl(self, d):
         self.names[d["id"]] = d.get("name")
         ini = [c for c in kids(d)]
+        qt = (d.get("type") or {}).get("qualType", "")
+        if "[" in qt and not qt.rstrip().endswith("*") and (not ini or ini[0].get("kind") == "InitListExpr"):
+            # local (stack) array: a private buffer
+            nm = d.get("name")
+            self.buffers[nm] = d["id"]
+            self.env[d["id"]] = Ptr(("buf", nm))
+            return
         if not ini:
             self.env[d["id"]] = None
             return
@@ -2685,3 +2692,129 @@ def zeroed_before(fn, names, stmt, fold=None):
 
 def names_of_root(tracer, root):
     return {root} | {n for n, (r, v) in tracer.alias.items() if r == root}
+
+
+# ----------------------------------------------------------------------------
+# c-scratch-layout: producer/consumer layout agreement of private scratch arrays
+# ----------------------------------------------------------------------------
+def _stride_of(idx, atom):
+    """coefficient polynomial of a loop variable occurring linearly at top level; None if it
+    occurs otherwise; ZERO if absent"""
+    if atom not in idx.atoms(True):
+        return ZERO
+    out = Poly()
+    for m, c in idx.t.items():
+        d = dict(m)
+        if atom in d:
+            if d[atom] != 1:
+                return None
+            del d[atom]
+            if any(atom in atom_atoms(a) for a in d):
+                return None
+            out = out + Poly({tuple(sorted(d.items(), key=lambda ae: _akey(ae[0]))): c})
+        elif any(atom in atom_atoms(a) for a, _ in m):
+            return None
+    return out
+
+
+def _divides(a, b):
+    """a | b for polynomials: True / False / None (undecided)"""
+    if a == b:
+        return True
+    if len(a.t) != 1 or len(b.t) != 1:
+        return None
+    (am, ac), = a.t.items()
+    (bm, bc), = b.t.items()
+    return _mono_div(bm, bc, am, ac) is not None
+
+
+def _nested(inner, outer):
+    """index range [stride, stride*trip] of `inner` lies inside one step range of `outer`"""
+    (si, ti), (so, to) = inner, outer
+    if si == so and ti == to:
+        return True
+    a = _divides(so, si)
+    b = _divides(si * ti, so * to)
+    if a is False or b is False:
+        return False
+    if a is None or b is None:
+        return None
+    return True
+
+
+def scratch_layout(stores, buffers):
+    """-> list of (buffer, verdict, reader Store, reader index, detail) with verdict in
+    ok | mismatch | undecided, one entry per (buffer, distinct reader index)."""
+    out = []
+    bufroots = {("buf", b) for b in buffers}
+    writers = {}
+    for s in stores:
+        if s.root in bufroots:
+            writers.setdefault(s.root, []).append(s)
+    seen = set()
+    for s in stores:
+        polys = [s.rhs, s.idx] + [b for lp in s.ctx for b in (lp.lo, lp.hi)]
+        reads = set()
+        for p in polys:
+            for a in p.atoms(True):
+                if a[0] == "ld" and a[1] in bufroots:
+                    reads.add(a)
+        for a in sorted(reads, key=_akey):
+            root, q = a[1], a[2]
+            ws = [w for w in writers.get(root, []) if w.seq < s.seq or (w.seq == s.seq and w is not s)]
+            if not ws or (root, q) in seen:
+                continue
+            seen.add((root, q))
+            verdicts = []
+            for w in ws:
+                shared = {lp.uid for lp in w.ctx} & {lp.uid for lp in s.ctx}
+                r_own = [lp for lp in s.ctx if lp.uid not in shared]
+                w_own = [lp for lp in w.ctx if lp.uid not in shared]
+                rv = []
+                bad = False
+                for lp in r_own:
+                    st = _stride_of(q, lp.atom)
+                    if st is None:
+                        bad = True
+                        break
+                    if not st.is_zero():
+                        rv.append((lp, st, lp.hi - lp.lo))
+                wv = []
+                for lp in w_own:
+                    st = _stride_of(w.idx, lp.atom)
+                    if st is None:
+                        bad = True
+                        break
+                    if not st.is_zero():
+                        wv.append((lp, st, lp.hi - lp.lo))
+                if bad:
+                    verdicts.append(("undecided", w, None))
+                    continue
+                if not rv or not wv:
+                    verdicts.append(("ok", w, None))
+                    continue
+                v = "ok"
+                why = None
+                for lp, st, tr in rv:
+                    res = []
+                    for lw, sw, tw in wv:
+                        n1, n2 = _nested((st, tr), (sw, tw)), _nested((sw, tw), (st, tr))
+                        res.append(True if (n1 is True or n2 is True) else (None if (n1 is None or n2 is None) else False))
+                    if any(r is True for r in res):
+                        continue
+                    if any(r is None for r in res):
+                        if v == "ok":
+                            v = "undecided"
+                        continue
+                    v = "mismatch"
+                    why = (lp, st, tr, wv)
+                    break
+                verdicts.append((v, w, why))
+            if any(v == "ok" for v, _, _ in verdicts):
+                out.append((root[1], "ok", s, q, None))
+            elif any(v == "undecided" for v, _, _ in verdicts):
+                out.append((root[1], "undecided", s, q, None))
+            else:
+                v, w, why = verdicts[0]
+                out.append((root[1], "mismatch", s, q, (w, why)))
+    return out
